@@ -297,6 +297,11 @@ def exact_mode():
     FIELD['decide'] = None
 
 
+# uninterpreted functions whose images are re-drawn by FIELD['soft_salt']: a FAILING random-interpretation trial whose
+# outcome changes with the salt depends on a value the interpreter does not model, and is no verdict
+SALTED_KINDS = ('sqrt', 'arccos', 'arcsin', 'arctan', 'arctan2', 'clip', 'sign', 'abs', 'min', 'max', 'floor')
+
+
 class NonResidue(Exception):
     """A square root of a non-residue was requested: retry the trial with another random point."""
 
@@ -318,6 +323,11 @@ def field_sqrt(x):
         return Rat._f(Dual(r, b * pow(2 * r, p - 2, p)))
     r = pow(x.fv, (p + 1) // 4, p)
     if r * r % p != x.fv:
+        if FIELD['sqrt_axiom'] == 'soft':
+            # no root at this point: the value stays an uninterpreted function of its argument (weaker, never wrong
+            # for a law that HOLDS); the caller retries a FAILING trial that met such a point
+            FIELD['soft_hits'] = FIELD.get('soft_hits', 0) + 1
+            return uf('sqrt', x)
         raise NonResidue()
     return Rat._f(min(r, p - r))
 
@@ -342,7 +352,9 @@ def _fval_name(name):
     if v is None:
         d = FIELD['decide'](name) if FIELD['decide'] is not None and isinstance(name, Atom) else None
         # the image is a function of (seed, name) only -- independent of evaluation order
-        h = int.from_bytes(hashlib.blake2b(('%d|%r' % (FIELD['seed'], name.key if isinstance(name, Atom) else name)).encode(),
+        salt = FIELD.get('soft_salt', 0) if isinstance(name, Atom) and name.kind in SALTED_KINDS else 0
+        h = int.from_bytes(hashlib.blake2b(('%d|%r%s' % (FIELD['seed'], name.key if isinstance(name, Atom) else name,
+                                                         '|salt%d' % salt if salt else '')).encode(),
                                            digest_size=16).digest(), 'big')
         if d is not None:
             v = int(d)
@@ -883,13 +895,27 @@ EXPAND_CLIP = [False]
 
 def P_clip(x, lo=None, hi=None, **kw):
     lo = kw.get('min', kw.get('a_min', lo)); hi = kw.get('max', kw.get('a_max', hi))
+    def one(v, l, h):
+        rv, rl, rh = Rat.lift(v), (None if isinstance(l, str) else Rat.lift(l)), (None if isinstance(h, str) else Rat.lift(h))
+        if rv.is_const() and (rl is None or rl.is_const()) and (rh is None or rh.is_const()):
+            c = rv.constval()
+            if rl is not None:
+                c = max(c, rl.constval())
+            if rh is not None:
+                c = min(c, rh.constval())
+            return Rat.lift(c)
+        return uf('clip', v, l, h)
     if EXPAND_CLIP[0] and lo is not None and hi is not None:
-        # piecewise form (valid for lo <= hi): x + [x<lo](lo-x) + [hi<x](hi-x)
+        # piecewise form (valid for lo <= hi): x + [x<lo](lo-x) + [hi<x](hi-x); EXPAND_CLIP[0] may be a set of bound
+        # keys: only clips against those bounds are expanded, the others stay uninterpreted
+        only = EXPAND_CLIP[0] if isinstance(EXPAND_CLIP[0], (set, frozenset)) else None
         def pw(v, l, h):
             v, l, h = Rat.lift(v), Rat.lift(l), Rat.lift(h)
+            if only is not None and l.key() not in only and h.key() not in only:
+                return one(v, l, h)
             return v + v._cmp('<', l) * (l - v) + h._cmp('<', v) * (h - v)
         return elemwise(pw, x, lo, hi)
-    return elemwise(lambda v, l, h: uf('clip', v, l, h), x, lo if lo is not None else 'None', hi if hi is not None else 'None') if not (isinstance(lo, str) or isinstance(hi, str)) else elemwise(lambda v: uf('clip', v, lo, hi), x)
+    return elemwise(one, x, lo if lo is not None else 'None', hi if hi is not None else 'None') if not (isinstance(lo, str) or isinstance(hi, str)) else elemwise(lambda v: one(v, lo, hi), x)
 def P_where(c, a, b):
     def w(c, a, b):
         c, a, b = Rat.lift(c), Rat.lift(a), Rat.lift(b)
